@@ -345,12 +345,15 @@ class CallMixin:
             cls, attr = m[:-3].split('.')
             fs = self.ctx.shapes.field(cls, attr)
             st.heap[fs.fid] = fresh('Hv_' + fs.fid, z3.ArraySort(Ref, fs.t.sort()))
+            self.ctx.note_heap_array(st.heap[fs.fid], fs.t.sort())
             return
         node = ast.parse(m, mode='eval').body
         if isinstance(node, ast.Name):
             v = self.ev1(node, pre, sub)
             if isinstance(v, Cont):
                 v.loc.write(st, fresh('hv_' + node.id, v.t.sort()))
+                if v.t.kind == 'list':
+                    st.assume(v.t.acc('len')(v.loc.read(st)) >= 0)
                 return
             raise VCError('modifies %s: not a container' % m)
         if isinstance(node, ast.Attribute):
@@ -360,7 +363,10 @@ class CallMixin:
                 if fs is None or fs.kind != 'heap':
                     raise VCError('modifies %s: not a heap field' % m)
                 arr = st.heap_arr(fs.fid, fs.t.sort())
-                st.heap[fs.fid] = z3.Store(arr, obj.term, fresh('hv_' + node.attr, fs.t.sort()))
+                nv = fresh('hv_' + node.attr, fs.t.sort())
+                st.heap[fs.fid] = z3.Store(arr, obj.term, nv)
+                if fs.t.kind == 'list':
+                    st.assume(fs.t.acc('len')(nv) >= 0)
                 return
         if isinstance(node, ast.Subscript):
             v = self.ev1(node, pre, sub)
